@@ -81,11 +81,16 @@ known("C03", r"^asm_layout\|\[?pcr\]?/\w+/bwd/[^|]*\|C03:target\|[^:]+:bwd:wrong
       "backward label,PCR at distance -129..-131: the size estimate forgets the statement's own bytes, the 8-bit form is chosen and "
       "cannot hold the displacement",
       {"asm": ["T NOP", " RMB 125", " LDA T,PCR"]}, also=("C01", "C04"))
-known("C03", r"^asm_passes\|fn/determine_pcr_relative_sizes/bwd\|probe\|probe:post:fits8-backward:probe:\w+:bwd:rmb:n=125:pcr8$",
+known("C03", r"^asm_passes\|fn/determine_pcr_relative_sizes/bwd\|[^|]*::post:fits8-backward\|probe:\w+:bwd:\w+:n=\d+:at=126:pcr8$",
       "the same backward boundary defect at its call site (contract clause post:fits8-backward of determine_pcr_relative_sizes): "
       "min_size counts the bytes between target and statement + 2, the displacement is counted from the end of the 3-byte statement, "
       "so 126 bytes between give -129 in the 8-bit form", {"asm": ["T NOP", " RMB 125", " LDA T,PCR"]}, also=("C13", "C02", "C01"))
-known("C03", r"^asm_layout\|pcr[+-]c/\w+/(fwd|bwd)/[^|]*\|(C03:target|C03:accepted|C02:\w+|C13:[\w-]+)\|",
+known("C03", r"^asm_passes\|fn/fix_addresses/pcr/\w+/hint\d\|[^|]*probe:pcr-target\|probe:\w+:fwd:org-after:n=\d+:at=-\d+:(pcr8|pcr16|undecodable)$",
+      "a label,PCR reference whose span contains an ORG: the 8/16-bit form is chosen from the statement sizes in between (the address "
+      "gap is ignored) while the displacement is computed from the addresses, so it lands in a field too narrow for it (LDA T,PCR / "
+      "ORG $1400 / T NOP emits A6 8C 3FD); branches across an ORG sum the sizes only and miss the label's listing address",
+      {"asm": [" ORG $1000", " LDA T,PCR", " ORG $1400", "T NOP"]}, also=("C01", "C02"))
+known("C03", r"^asm_layout\|pcr[+-]c/\w+/(fwd|bwd)/[^|]*\|C03:target\|(pcr\+c/\w+:fwd:wrong-target:pcr8:n=(101\.\.119|120\.\.124)|pcr\+c/\w+:bwd:wrong-target:pcr16:n=(125\.\.127|128\.\.130|131\.\.255)|pcr-c/\w+:bwd:wrong-target:pcr(16:n=(125\.\.127|128\.\.130|131\.\.255|256\.\.32000|32001\.\.33000|33001\.\.1000000000)|8:n=(0\.\.100|101\.\.119|120\.\.124|125\.\.127))|pcr-c/\w+:fwd:wrong-target:pcr8:n=0\.\.100)$",
       "label+-constant,PCR: the constant is applied to the wrong quantity / the operand is mis-sized",
       {"asm": [" LDA T+7,PCR", " RMB 121", "T NOP"]}, also=("C01", "C04", "C02", "C13"))
 known("C03", r"^asm_layout\|pcr-multi/\w+\|(C03:target|C02:\w+)\|pcr-multi/\w+:(wrong-target|size!=len|listing-address)",
@@ -170,6 +175,20 @@ known("C05", r"^asm_data\|silent/END\|(C13:no-internal-error|C05:accepted)\|sile
 known("C13", r"^asm_forms\|[^|]*/(neg5|dec5)/\w+/equ\|C13:no-internal-error\|[^|]*:escape:(ValueTypeError:val=-1000000000\.\.-32769|AttributeError:val=65536\.\.1000000000):",
       "an EQU symbol whose value lies outside -32768..65535, used as an operand, raises ValueTypeError (below -32768) or "
       "AttributeError (above 65535) instead of a diagnostic", {"asm": ["V EQU -39001", " LDA V"]})
+known("C13", r"^asm_text\|text/\d+/(END|EQU|FCB|FDB|NAM|ORG|RMB|SETDP)\|C13:no-internal-error\|text:(END|EQU|FCB|FDB|NAM|ORG|RMB|SETDP):escape:ValueTypeError@values\.py:Value\.create_from_str<operands\.py:PseudoOperand\.__init__$",
+      "an operand text of a pseudo operation that is no value at all (empty, lone prefix, dangling operator ...) raises ValueTypeError in "
+      "PseudoOperand.__init__, which Statement.parse_line does not turn into a diagnostic", {"asm": [" ORG $"]})
+known("C13", r"^asm_text\|text/\d+/(BRA|LBRA)\|C13:no-internal-error\|text:(BRA|LBRA):escape:ValueTypeError@values\.py:Value\.create_from_str<operands\.py:RelativeOperand\.__init__$",
+      "the same for the operand of a branch (RelativeOperand.__init__)", {"asm": [" BRA #"]}, also=("C12",))
+known("C13", r"^asm_text\|text/\d+/FCC\|C13:no-internal-error\|text:FCC:escape:IndexError@statement\.py:Statement\.parse_line<statement\.py:Statement\.__init__$",
+      "FCC whose operand is empty, one character or has no closing delimiter raises IndexError in Statement.parse_line", {"asm": [" FCC #"]},
+      also=("C05",))
+known("C13", r"^asm_text\|text/\d+/(JMP|LDA|lda|LEAX)\|C13:no-internal-error\|text:(JMP|LDA|LEAX):escape:IndexError@statement\.py:Statement\.determine_pcr_relative_sizes<program\.py:Program\.translate_statements$",
+      "an address label as constant index offset with a prefix (#T,X  <T,X) raises IndexError in the size pass (same root as LDA L,X)",
+      {"asm": ["T NOP", " LDA #T,X"]})
+known("C13", r"^asm_text\|text/\d+/INCLUDE\|C13:no-internal-error\|text:INCLUDE:escape:FileNotFoundError@source_file\.py:SourceFile\.read_assembly_contents<source_file\.py:SourceFile\.read_file$",
+      "INCLUDE of a file that does not exist escapes as FileNotFoundError (C19 known finding, reached through arbitrary operand texts)",
+      {"asm": [" INCLUDE nothere.asm"]}, also=("C19",))
 known("C13", r"^asm_layout\|abs/LDA,X/[^|]*\|C13:no-internal-error\|abs/LDA,X:\w+:\w+:escape:IndexError",
       "a label used as constant index offset (LDA L,X) raises IndexError in fix_addresses", {"asm": ["L NOP", " LDA L,X"]}, also=("C01", "C04"))
 known("C13", r"^asm_layout\|placement/[\w-]+\|C13:no-internal-error\|placement/[\w-]+:escape:ValueTypeError",
@@ -183,7 +202,7 @@ known("C13", r"^asm_forms\|[^|]*/(B[A-Z]{2}|LB[A-Z]{2,3})(/equ)?\|C13:no-interna
 known("C06", r"^tape_roundtrip\|rt/[^|]*\|C06:roundtrip\|rt/lens=[\d,]*\b0\b[\d,]*:file-count=",
       "an empty file written to a cassette image hides itself and every later file from the listing (read_file returns None for "
       "a file without data)", {"files": "cassette: [file with 0 data bytes]"}, also=("C09", "C16"))
-known("C06", r"^tape_reader_contracts\|fn/read_file\|[^|]*\|probe:post:empty-file-is-returned:empty-data-file:not-listed",
+known("C06", r"^tape_reader_contracts\|fn/read_file\|[^|]*::post:empty-file-is-returned\|empty-data-file:not-listed",
       "same defect at its call site: CassetteFile.read_file ends with `if not data: return None`, so a well-formed file whose data "
       "blocks carry no bytes is not returned (contract clause post:empty-file-is-returned)", {"files": "cassette stream: name-file block + EOF block"})
 known("C09", r"^vfile_history\|sniff/cas-big-(zero|ff|mixed)\|C09:kind-recognised\|sniff/[\w-]+:(raised:\w+|recognised-as:\w+)",
